@@ -42,6 +42,9 @@ type traceCtl struct {
 	onCommit func()
 	// onSet, if set, is called after every completed write made outside a transaction
 	onSet func(k, v []byte)
+	// onTxnRead, if set, is called before a transaction reads a key (get / has): lets a scenario hold a transaction
+	// at that point until something else has happened
+	onTxnRead func(k []byte)
 }
 
 func (c *traceCtl) arm(failAt int, keep bool) {
@@ -163,6 +166,9 @@ func (t *ttxn) Get(ctx context.Context, k []byte) ([]byte, error) {
 	return v, err
 }
 func (t *ttxn) Has(ctx context.Context, k []byte) (bool, error) {
+	if f := t.c.onTxnRead; f != nil {
+		f(k)
+	}
 	i, e := t.c.op(t.id, "has", k)
 	if e != nil {
 		return false, e
